@@ -194,9 +194,12 @@ package blob
 //@   requires p != nil
 //@   ensures err == nil ==> result0 != nil && result0.index == p.index && len(p.shares) == p.length
 
+// (a parser without a selector selects nothing; otherwise the verdict is the selector's, for this blob)
 //@ func (*parser).verify
 //@   property C11
-//@   trusted
+//@   requires p != nil
+//@   param .verifyFn: ensures true
+//@   ensures p.verifyFn == nil ==> !result
 
 // retrieve walks the rows of a namespace. Inside one row, `index` is the column of the first share of
 // appShares and appShares is the not yet consumed tail of the row's shares: with c = index - start
